@@ -21,6 +21,12 @@ def rec_case(seed):
     by, bx = rng.randint(1, h), rng.randint(1, w)
     if rng.random() < 0.2:
         by, bx = h, w                              # box == image
+    if rng.random() < 0.08:
+        by, bx = rng.choice([(1, 1), (1, 1), (1, bx), (by, 1)])      # one mesh element per pixel (zoom factor 1)
+    large = seed % 8 == 3
+    if large:                                      # boxes of more than 600 pixels (numpy's large-array median path)
+        h, w = rng.randint(26, 30), rng.randint(26, 34)
+        by, bx = rng.randint(25, h), rng.randint(25, w)
     base = rng.randint(0, 20)
     data = [[base + rng.randint(0, 6) for _ in range(w)] for _ in range(h)]
     if rng.random() < 0.4:                          # a source
@@ -84,7 +90,14 @@ def rec_case(seed):
                                        and np.all(np.isfinite(b.background_rms_mesh))))
         except ValueError:
             rec['raised'] = True
+            if large:
+                rec['kind'] = 'large'
             return out
+        if large:
+            # too large for the exact re-derivation by TLC: the record is paired with the same case run in the other optional-dependency
+            # environment (with / without bottleneck) - see run(); the relations below are checked as for every case
+            rec['kind'] = 'large'
+            fsize = None
 
         if fsize is not None:
             frec = {'id': 200000000 + seed, 'kind': 'filter', 'raw': rec['mesh'], 'rawrms': rec['rmsmesh'], 'fs': list(fsize), 'sel': selective,
@@ -107,6 +120,12 @@ def rec_case(seed):
             out.append({'id': 100000000 + seed * 10 + len(out), 'kind': 'pair', 'rel': rel, 'a': np.ravel(fxa(a)).tolist(), 'b': np.ravel(fxa(bb)).tolist(),
                         'tol': tol, 'raised': raised})
         try:
+            # read order: a second instance whose meshes are read BEFORE its maps (the main run read the maps first)
+            bo = run(d)
+            mo, ro = fxa(bo.background_mesh), fxa(bo.background_rms_mesh)
+            bo.background, bo.background_rms
+            pair('meshes_do_not_depend_on_whether_the_maps_were_read', np.concatenate([np.ravel(mo), np.ravel(ro), np.ravel(fxa(bo.background_mesh)), np.ravel(fxa(bo.background_rms_mesh))]) / S,
+                 np.concatenate([np.ravel(rec['mesh']), np.ravel(rec['rmsmesh'])] * 2) / S, tol=0)
             d2 = d.copy()
             for r, c in mask + cov:
                 d2[r, c] = rng.choice([1e7, -1e7, np.nan])
@@ -190,6 +209,17 @@ def run(ctx):
     seeds = [ctx.seed * 40692 + i for i in range(n)]
     recs = [r for rs in core.pmap(rec_case, seeds, chunksize=8) for r in rs]
     recs += record_without_bottleneck(ctx, seeds[: n // 2])
+    # large-box cases: the same call with and without bottleneck must agree (meshes, pixel counts, maps)
+    big = {r['id']: r for r in recs if r['kind'] == 'large'}
+    recs = [r for r in recs if r['kind'] != 'large']
+    for i, r in big.items():
+        o = big.get(i + 500000000)
+        if o is None or i >= 500000000:
+            continue
+        flat = lambda x: [v for k in ('mesh', 'rmsmesh', 'npix', 'bkg', 'rms') for v in np.ravel(x[k]).tolist()] + [int(x['raised']), int(x['map_finite'])]
+        fa, fb = flat(r), flat(o)
+        recs.append({'id': 700000000 + i, 'kind': 'pair', 'rel': 'large_boxes_same_result_with_and_without_bottleneck', 'a': fa if len(fa) == len(fb) else [0],
+                     'b': fb if len(fa) == len(fb) else [1], 'tol': 2, 'raised': False})
     ver = core.validate_batch(ctx, 'Trace_Bkg2D', recs, 'Trace:Bkg2D')
     for r in recs:
         v = ver[r['id']]
